@@ -65,6 +65,7 @@ type task struct {
 	yields    int64
 	opYields  int64
 	opStallNs int64
+	sinkStuckOp int
 	dynamic   bool  // started by a go statement of the code under test
 	parent    *task // the caller task a dynamic task descends from
 	noSwitch  int // depth of critical sections of the code under test (held locks, Once.Do)
@@ -94,6 +95,7 @@ type kernel struct {
 	switches    int64
 	stallIdx    int
 	cpuDebt     int64
+	logStalls   int64
 	cpuSettles  int64
 	cpuNs       int64
 	clockReads  int64
@@ -245,6 +247,7 @@ func (k *kernel) hooks() *simrt.Hooks {
 	h.Critical = k.critical
 	if k.mode != "race" {
 		h.Clock = k.clockRead
+		h.LogWrite = k.logWrite
 	}
 	if k.mode == "race" {
 		h.Yield = k.yieldRace
@@ -652,6 +655,43 @@ func (k *kernel) settle() {
 		t.opStallNs += d
 	}
 	time.Sleep(time.Duration(d))
+}
+
+// logWrite is the simulated log device: a "slow" sink takes 700 ms of simulated time per write, a
+// "stuck" one blocks the first write of every call for 5 s (a full pipe whose reader wakes up late).
+// The writing task sleeps without the token; the time counts as time the caller was held up by its
+// own log destination, not as a device wait of the call (kept apart like clock stalls).
+func (k *kernel) logWrite(n int) {
+	t := k.cur
+	if t == nil || k.mode == "race" || simrt.ForeignLive() {
+		return
+	}
+	var d time.Duration
+	switch k.p.Sink {
+	case "slow":
+		d = 700*time.Millisecond + 137*time.Microsecond
+	case "stuck":
+		root := t
+		if t.parent != nil {
+			root = t.parent
+		}
+		if root.sinkStuckOp == root.curOp+1 {
+			return
+		}
+		root.sinkStuckOp = root.curOp + 1
+		d = 5*time.Second + 731*time.Microsecond
+	default:
+		return
+	}
+	k.logStalls++
+	if t.parent != nil {
+		t.parent.opStallNs += int64(d)
+	} else {
+		t.opStallNs += int64(d)
+	}
+	tok := k.blockBeginBubble(-1)
+	time.Sleep(d)
+	k.blockEndBubble(tok)
 }
 
 // clockRead is called before the code under test reads the clock.
